@@ -88,6 +88,7 @@ pub fn setup(cfg: &EpCfg, opts: penguin_mux::config::Options, link_cfg: &LinkCfg
     let link = Link::new(link_cfg.window.max(1), link_cfg.latency_ms, seq.clone(), lat_seed ^ 0x50f0);
     link.lock().unwrap().drop_data_after_close_sent = link_cfg.drop_after_close;
     link.lock().unwrap().waits_for_transport_close = [link_cfg.ws_client == 1, false];
+    link.lock().unwrap().backpressure_in_flush = link_cfg.bp_flush;
     let world = Rc::new(RefCell::new(LinkWorld::new(link.clone())));
     let mut sim = Sim::new(sched, weights, record, world.clone(), seq.clone());
     let rng = ScriptRng { vals: Arc::new(Mutex::new(cfg.ids.iter().copied().collect())), base: 1 << 28, ctr: 0 };
